@@ -23,6 +23,7 @@
 /* sqrt by contract: a strictly increasing function.  The arg-min over centroids depends only on the order of the
  * distances, which every strictly increasing function preserves (one-line lemma), so it is instantiated as the identity;
  * the specification below is stated on squared distances and holds whether or not the routine takes the root. */
+#include <math.h>
 #undef sqrt
 #define sqrt(x) (x)
 #endif
